@@ -92,3 +92,12 @@ prop("C07",
                   "asyncio.Queue is modelled as a list (put_nowait appends, get_nowait removes the first element)",
                   "NOT decided: the head-of-line bound 'no datagram stays at the head for more than a few polling intervals' (scheduler / fairness)"],
      explanation="queue representation invariant (ghost marked item), consume / unhandled consume loop contracts with interference at every suspension point, addressed-packet gate with all four address components symbolic")
+
+prop("C20",
+     level="proof",
+     ground=[lexical.c20_lexical],
+     bounded=["cleanup_removes_exactly_the_finished: 0..4 registered handlers (list comprehension over a concrete list)", "sends_leave_in_fifo_order_paced: 0..3 queued sends (only the head is touched)"],
+     assumptions=["threading.Lock mutual exclusion (ASSUMED); no thread interleavings explored",
+                  "NOT decided: the blocking client completing its handshake against the simulator under every loss pattern within the retry budget (liveness across two engine threads); the per-datagram reassembly step it relies on is proved (shared with C01)",
+                  "'retransmitted exactly N times' is read per engine iteration: one retransmission per consumed retry, removal at retry 0"],
+     explanation="per-step contracts of one engine iteration under a ghost clock: FIFO + throttle + time-stamp of _process_send_requests, first-match dispatch by loop invariant over a list of any length with an uninterpreted acceptance predicate, exception containment, retry accounting, cleanup; lexical lock domination")
